@@ -22,9 +22,10 @@ def det_table():
         if needs=='see notes.md':
             meta=f"{ROOT}/{r['name']}/notes.md"
             needs='see '+r['name']+'/notes.md'
-        rows.append(f"| `{r['name']}` | {', '.join(r.get('expected',[]))} | {needs} | {', '.join(r.get('caught_by',[])) or '**MISSED**'} | `{sig}` |")
+        rows.append(f"| `{r['name']}` | {', '.join(r.get('expected',[]))} | {needs} | {', '.join(r.get('caught_by',[])) or ('**MISSED**' if r['status']=='MISSED' else 'not caught — '+r['status'].split(' ')[0].lower())} | `{sig}` |")
     n=len(res); caught=sum(1 for r in res if r['status']=='CAUGHT')
-    return '\n'.join(rows)+f'\n\n{caught} of {n} changes caught by the quick tier of the check(s) of the property they break.'
+    ood=sum(1 for r in res if r['status'].startswith('OUT'))
+    return '\n'.join(rows)+f'\n\n{caught} of {n} changes caught by the quick tier of the check(s) of the property they break; {ood} lie outside the properties\' domain or the oracles\' reach (see §8) and are not caught; {n-caught-ood} missed.'
 def thorough_table():
     p=f'{ROOT}/selftest/thorough_run.log'
     if not os.path.exists(p): return '(no thorough pass logged yet)'
